@@ -86,6 +86,13 @@ pub fn configs() -> Vec<(String, BuildSpec)> {
     s.deps.insert("provides", vec![any("p1"), any("p2"), any("p3"), any("p1")]);
     s.deps.insert("recommends", vec![DepSpec { ctor: "user", name: "user2".into(), version: "".into() }, any("m1"), DepSpec { ctor: "group", name: "group1".into(), version: "".into() }, any("m2"), DepSpec { ctor: "user", name: "user2".into(), version: "".into() }]);
     v.push(("3 users, dependencies listed more than once, owner recommends also given by hand".into(), s));
+    // a builder started from Default::default(): the clamping must not depend on how the builder came to be
+    let mut s = v[3].1.clone();
+    s.from_default = true;
+    for f in [&mut s.name, &mut s.version, &mut s.license, &mut s.arch, &mut s.summary] {
+        f.clear();
+    }
+    v.push(("3 users, mtimes before/at/after the source date, builder started from Default::default()".into(), s));
     // everything that has several members at once: whatever a builder might collect in a hash map on the way
     let mut s = crate::corpus::rich();
     s.name = "cmulti".into();
